@@ -178,6 +178,21 @@ def local_class(V):
     race(V, build_s3, [lambda ns, d=ins[i]: dict(ns['Local'](**d)), lambda ns, d=ins[j]: dict(ns['Local'](**d))], 'local-class')
 
 
+ITEMS_WATCHED = sched.code_objects(getattr(BaseParser, '_resolve_forward_refs', None), BaseParser.resolve_forward_refs,
+                                   getattr(Rule, '_parse_seq_args', None))
+
+
+@ob('first-parse/local-class-items', marks=['preempted'], budget=(150, 1200), per_path=(30, 60), thorough_only=True,
+    bounds='two threads make the first parse of the function-local class on a list of two items of the later-defined class; '
+           'preemption points restricted to the resolution (resolve_forward_refs / _resolve_forward_refs) and to the item loop of the '
+           'sequence parser (Rule._parse_seq_args), every schedule with at most 2 preemptions: a thread that picked the item type up '
+           'before the other thread finished (and reset) the resolution must still convert every item')
+def local_class_items(V):
+    d = {'lines': [{'v': 5}, {'v': '6'}]}
+    race(V, build_s3, [lambda ns: dict(ns['Local'](**d)), lambda ns: dict(ns['Local'](**d))], 'local-class-items',
+         watched=ITEMS_WATCHED, preemptions=2)
+
+
 @ob('first-parse/function', marks=['preempted'], budget=(150, 900), per_path=(30, 60),
     bounds='two threads make the first call of a decorated function whose parameter, default and return annotations are forward '
            'references to a class defined later; solver-picked valid / invalid arguments; same bounds')
